@@ -73,6 +73,189 @@ theorem existingParts_is_current (q : Quirks) (s : State) (b k : String) (bk : B
   | none => rfl
   | some r => by_cases hd : r.dm = true <;> simp [hd, viewOf, Row.content]
 
+theorem ite_err_eq {c : Prop} [Decidable c] {s s1 : State} {x : Err} {y : State × Out} {e : ETag} {n : Nat}
+    (h : (if c then (s, Out.err x) else y) = (s1, Out.appended e n)) : y = (s1, Out.appended e n) := by
+  split at h
+  · simp at h
+  · exact h
+
+theorem flatten_snoc (l : List Bytes) (x : Bytes) : (l ++ [x]).flatten = l.flatten ++ x := by simp
+
+/-- A successful write path (`putRow`) of `parts` into (b, k) is read back as their concatenation. -/
+theorem get_after_putRow {q : Quirks} {s s' : State} {bk bkx : Bucket} {b k : String} {n : NewObj} {inm : Bool}
+    {im : IfMatch} {vid : Option Nat} (hinv : Inv s) (hfb : findBucket s b = some bk)
+    (hbx : bkx = bk) (hok : putRow q s bkx k n inm im = .ok (s', vid)) :
+    ∃ v, (step q s' (.get b k none)).2 = .obj v ∧ v.body = n.parts.flatten ∧ v.size = n.parts.flatten.length := by
+  subst hbx
+  obtain ⟨bk', row, hfb', hl, _, hdm, hparts, _⟩ := putRow_current (h := hinv) hfb hok
+  obtain ⟨hg, _⟩ := get_current (q := q) hfb' hl hdm
+  exact ⟨viewOf row, hg, by simp [viewOf, Row.content, hparts], by simp [viewOf, Row.size, Row.content, hparts]⟩
+
+/-- **append_extends.** In every state satisfying the invariant (hence every reachable state) and
+for every setting of the switches, an acknowledged AppendObject of `body` makes the next GET of the
+key return the previous current content followed by `body` — nothing lost, nothing reordered — and
+the acknowledged size is the size of exactly that. A key without a current object (absent, or
+hidden by a delete marker) counts as empty. -/
+theorem append_extends (q : Quirks) (s s1 : State) (hinv : Inv s) (b k : String) (body : Bytes) (off : Option Nat)
+    (bk : Bucket) (hfb : findBucket s b = some bk) (e : ETag) (size : Nat)
+    (hack : step q s (.append b k body off) = (s1, .appended e size)) :
+    ∃ v, (step q s1 (.get b k none)).2 = .obj v ∧ v.body = (existingParts bk k).flatten ++ body ∧
+      v.size = size ∧ size = ((existingParts bk k).flatten ++ body).length := by
+  have hfb' : findBucket { s with clock := s.clock + 1 } b = some bk := hfb
+  have hinv' : Inv { s with clock := s.clock + 1 } := inv_tick hinv
+  have hbk := hinv bk (findBucket_mem hfb)
+  simp only [step, stepT, hfb'] at hack
+  -- the offset test passed
+  replace hack := ite_err_eq hack
+  have goalOf : ∀ (st : State) (row : Row) (bk2 : Bucket) (parts : List Bytes) (sz : Nat),
+      findBucket st b = some bk2 → latestRow bk2 k = some row → row.dm = false → row.parts = parts →
+      parts.flatten = (existingParts bk k).flatten ++ body → sz = parts.flatten.length →
+      st = s1 → sz = size →
+      ∃ v, (step q s1 (.get b k none)).2 = .obj v ∧ v.body = (existingParts bk k).flatten ++ body ∧
+        v.size = size ∧ size = ((existingParts bk k).flatten ++ body).length := by
+    intro st row bk2 parts sz hf2 hl2 hdm hp hfl hsz hst hsize
+    subst hst
+    obtain ⟨hg, _⟩ := get_current (q := q) hf2 hl2 hdm
+    exact ⟨viewOf row, hg, by simp [viewOf, Row.content, hp, hfl], by simp [viewOf, Row.size, Row.content, hp, ← hsize, hsz],
+      by rw [← hsize, hsz, hfl]⟩
+  -- every branch that goes through putRow
+  have viaPut : ∀ (n : NewObj) (e' : ETag) (sz : Nat), n.parts.flatten = (existingParts bk k).flatten ++ body →
+      sz = n.parts.flatten.length →
+      (match putRow q { s with clock := s.clock + 1 } bk k n false IfMatch.none with
+        | .error e => ({ s with clock := s.clock + 1 }, Out.err e)
+        | .ok (s', _) => (s', Out.appended e' sz)) = (s1, Out.appended e size) →
+      ∃ v, (step q s1 (.get b k none)).2 = .obj v ∧ v.body = (existingParts bk k).flatten ++ body ∧
+        v.size = size ∧ size = ((existingParts bk k).flatten ++ body).length := by
+    intro n e' sz hfl hsz h
+    cases hp : putRow q { s with clock := s.clock + 1 } bk k n false IfMatch.none with
+    | error err => simp [hp] at h
+    | ok x =>
+      obtain ⟨s', vid⟩ := x
+      simp only [hp, Prod.mk.injEq, Out.appended.injEq] at h
+      obtain ⟨hs, _, hsize⟩ := h
+      obtain ⟨bk', row, hfb2, hl2, _, hdm, hparts, _⟩ := putRow_current (h := hinv') hfb' hp
+      exact goalOf s' row bk' n.parts sz hfb2 hl2 hdm hparts hfl hsz hs hsize
+  -- every branch that re-saves the current row in place
+  have inPlace : ∀ (r r' : Row) (e' : ETag) (sz : Nat), latestRow bk k = some r → r'.rowId = r.rowId → r'.key = r.key →
+      r'.latest = true → r'.dm = false → r'.parts.flatten = (existingParts bk k).flatten ++ body →
+      sz = r'.parts.flatten.length →
+      (setBucket { s with clock := s.clock + 1 } (replaceRow bk r'), Out.appended e' sz) = (s1, Out.appended e size) →
+      ∃ v, (step q s1 (.get b k none)).2 = .obj v ∧ v.body = (existingParts bk k).flatten ++ body ∧
+        v.size = size ∧ size = ((existingParts bk k).flatten ++ body).length := by
+    intro r r' e' sz hl hid hkey hlat hdm hfl hsz h
+    simp only [Prod.mk.injEq, Out.appended.injEq] at h
+    obtain ⟨hs, _, hsize⟩ := h
+    have hl' := latestRow_repl_keep hbk hl hid hkey hlat
+    have hfb2 : findBucket (setBucket { s with clock := s.clock + 1 } (replaceRow bk r')) b = some (replaceRow bk r') :=
+      findBucket_setBucket hfb' (by rw [replaceRow_name]; exact findBucket_some_name hfb)
+    exact goalOf _ r' _ r'.parts sz hfb2 hl' hdm rfl hfl hsz hs hsize
+  cases hl : latestRow bk k with
+  | none =>
+    have hex : existingParts bk k = [] := by unfold existingParts; rw [hl]
+    simp only [hl] at hack
+    split at hack
+    · exact viaPut _ _ _ (by simp [hex]) (by simp) hack
+    · cases hq : q.appendLatestInPlace with
+      | false =>
+        simp only [hq, Bool.false_eq_true, if_false] at hack
+        exact viaPut _ _ _ (by simp [hex]) (by simp) hack
+      | true =>
+        simp only [hq, if_true] at hack
+        simp only [Prod.mk.injEq, Out.appended.injEq] at hack
+        obtain ⟨hs, _, hsize⟩ := hack
+        generalize hrow : ({ rowId := s.nextRow, key := k, vid := none, latest := true, created := s.clock + 1, updated := s.clock + 1, wrote := s.clock + 1, parts := [] ++ [body], etag := multiETag ([] ++ [body]) } : Row) = row at hs
+        have hl' : latestRow (addRow bk row) k = some row :=
+          latestRow_add (latestRow_none hl) (by rw [← hrow]) (by rw [← hrow])
+        have hfb2 : findBucket (setBucket { s with clock := s.clock + 1 } (addRow bk row)) b = some (addRow bk row) :=
+          findBucket_setBucket hfb' (by rw [addRow_name]; exact findBucket_some_name hfb)
+        have hfb3 : findBucket { (setBucket { s with clock := s.clock + 1 } (addRow bk row)) with nextRow := s.nextRow + 1 } b
+            = some (addRow bk row) := hfb2
+        exact goalOf _ row _ row.parts _ hfb3 hl' (by rw [← hrow]) rfl (by rw [← hrow]; simp [hex]) (by rw [← hrow]) hs hsize
+  | some r0 =>
+    simp only [hl] at hack
+    by_cases hdm : r0.dm = true
+    · have hex : existingParts bk k = [] := by unfold existingParts; rw [hl]; simp [hdm]
+      simp only [hdm, if_true] at hack
+      split at hack
+      · exact viaPut _ _ _ (by simp [hex]) (by simp) hack
+      · cases hq : q.appendLatestInPlace with
+        | true =>
+          simp only [hq, if_true] at hack
+          replace hack := ite_err_eq hack
+          refine inPlace r0 _ _ _ hl ?_ ?_ ?_ ?_ ?_ ?_ hack <;> first | rfl | simp [hex]
+        | false =>
+          simp only [hq, Bool.false_eq_true, if_false] at hack
+          exact viaPut _ _ _ (by simp [hex]) (by simp) hack
+    · have hex : existingParts bk k = r0.parts := by unfold existingParts; rw [hl]; simp [hdm]
+      simp only [hdm, Bool.false_eq_true, if_false] at hack
+      split at hack
+      · exact viaPut _ _ _ (by simp [hex]) (by simp) hack
+      · cases hq : q.appendLatestInPlace with
+        | true =>
+          simp only [hq, if_true] at hack
+          replace hack := ite_err_eq hack
+          refine inPlace r0 _ _ _ hl ?_ ?_ ?_ ?_ ?_ ?_ hack <;> first | rfl | simp [hex]
+        | false =>
+          simp only [hq, Bool.false_eq_true, if_false] at hack
+          by_cases hv0 : r0.vid.isNone = true
+          · simp only [hv0, if_true] at hack
+            replace hack := ite_err_eq hack
+            refine inPlace r0 _ _ _ hl ?_ ?_ ?_ ?_ ?_ ?_ hack <;> first | rfl | simp [hex]
+          · simp only [hv0, Bool.false_eq_true, if_false] at hack
+            exact viaPut _ _ _ (by simp [hex]) (by simp) hack
+
+/-- `append_extends` in terms of what GET reported before the append. -/
+theorem append_extends_get (q : Quirks) (s s1 : State) (hinv : Inv s) (b k : String) (body : Bytes) (off : Option Nat)
+    (e : ETag) (size : Nat) (hack : step q s (.append b k body off) = (s1, .appended e size)) :
+    currentBody q s1 b k = currentBody q s b k ++ body ∧ currentSize q s1 b k = some size ∧
+      size = (currentBody q s b k ++ body).length := by
+  cases hfb : findBucket s b with
+  | none =>
+    have hfb' : findBucket { s with clock := s.clock + 1 } b = none := hfb
+    simp [step, stepT, hfb'] at hack
+  | some bk =>
+    obtain ⟨v, hg, hb, hs, hsz⟩ := append_extends q s s1 hinv b k body off bk hfb e size hack
+    rw [existingParts_is_current q s b k bk hfb]
+    refine ⟨?_, ?_, hsz⟩
+    · unfold currentBody; rw [hg]; exact hb
+    · unfold currentSize; rw [hg]; simp [hs]
+
+/-- Appends compose: two acknowledged appends in a row (any operations not writing the key in
+between) leave the key holding old ++ first ++ second. -/
+theorem two_appends (q : Quirks) (s s1 s2 : State) (hinv : Inv s) (b k : String) (x y : Bytes) (ox oy : Option Nat)
+    (e1 e2 : ETag) (n1 n2 : Nat) (mid : List Op) (hmid : ∀ op ∈ mid, ¬ Writes op b k)
+    (h1 : step q s (.append b k x ox) = (s1, .appended e1 n1))
+    (h2 : step q (run q s1 mid).1 (.append b k y oy) = (s2, .appended e2 n2)) :
+    currentBody q s2 b k = currentBody q s b k ++ x ++ y := by
+  have hinv1 : Inv s1 := by have := step_inv q s (.append b k x ox) hinv; rw [h1] at this; exact this
+  have hinvm : Inv (run q s1 mid).1 := by
+    have gen : ∀ (ops : List Op) (st : State), Inv st → Inv (run q st ops).1 := by
+      intro ops
+      induction ops with
+      | nil => intro st h; exact h
+      | cons op ops ih => intro st h; simpa [run] using ih (step q st op).1 (step_inv q st op h)
+    exact gen mid s1 hinv1
+  obtain ⟨a1, _, _⟩ := append_extends_get q s s1 hinv b k x ox e1 n1 h1
+  obtain ⟨a2, _, _⟩ := append_extends_get q _ s2 hinvm b k y oy e2 n2 h2
+  -- the operations in between do not change what GET returns
+  have hstable : currentBody q (run q s1 mid).1 b k = currentBody q s1 b k := by
+    unfold currentBody
+    cases hg : (step q s1 (.get b k none)).2 with
+    | obj v =>
+      obtain ⟨v', hg', hb, _⟩ := Pithos.C01.get_stable q s1 hinv1 b k v hg mid hmid
+      rw [hg']; exact hb
+    | _ =>
+      -- s1 is the state right after an acknowledged append: GET succeeds there
+      obtain ⟨bk, hfb⟩ : ∃ bk, findBucket s b = some bk := by
+        cases hfb : findBucket s b with
+        | none =>
+          have hfb' : findBucket { s with clock := s.clock + 1 } b = none := hfb
+          simp [step, stepT, hfb'] at h1
+        | some bk => exact ⟨bk, rfl⟩
+      obtain ⟨v, hgv, _⟩ := append_extends q s s1 hinv b k x ox bk hfb e1 n1 h1
+      rw [hgv] at hg; cases hg
+  rw [a2, hstable, a1]
+
 /-- **Negation witness for the code before /repo 8a5dc41**: in a suspended bucket whose current
 version is a delete marker, an append turned the marker into an object under the marker's version
 id instead of writing the null version. -/
